@@ -448,16 +448,15 @@ class Proto:
             st.refills.append({"call": i, "f": f, "flds": flds, "names": names, "guard": ok, "pos": st.pos, "incs": [], "E": E})
             st.pos = lf_const(0)
         elif kind == "inc":
-            hf = self.prog.resolve(f.unit, i["callee"][1])
-            if hf is not None:
-                self.inc_helpers.add(hf.key)
             cs = [E.lf(o) for o in i["ops"][1:]]
-            from .c05 import norm_inc_args
-            tup = norm_inc_args(self.prog, f, i, [c[0] if c is not None and lf_is_const(c) else None for c in cs], self.BLOCK)
-            if st.refills:
-                st.refills[-1]["incs"].append((i, tup))
-            else:
-                st.bad.append(("C05.R3", f.loc(i), "the counter is advanced although no keystream batch was generated on this path"))
+            from .c05 import inc_tuples
+            for (hk, tup) in inc_tuples(self.prog, f, i, [c[0] if c is not None and lf_is_const(c) else None for c in cs], self.BLOCK):
+                if hk is not None:
+                    self.inc_helpers.add(hk)
+                if st.refills:
+                    st.refills[-1]["incs"].append((i, tup))
+                else:
+                    st.bad.append(("C05.R3", f.loc(i), "the counter is advanced although no keystream batch was generated on this path"))
         elif kind == "use":
             kidx = names.index("ecounter")
             kf = flds[kidx]
